@@ -774,9 +774,11 @@ func selfCheck(ctx *h.Ctx) {
 // Driver (a): FormatText called directly
 
 type realFonts struct {
-	fc  parser.FontConfig
-	ids []string
-	ok  bool
+	fc     parser.FontConfig
+	ids    []string
+	ok     bool
+	widths map[string]map[string]int // per font id, decoded by the harness
+	meta   map[string][3]int         // maxLineLength, numLines, cursorOverlapWidth, decoded by the harness
 }
 
 func callFormat(fc *parser.FontConfig, text string, p params, fontID string) (out string, err error, pan interface{}, stack string) {
@@ -802,7 +804,7 @@ func directCase(k *h.Case, rf *realFonts) {
 		id := h.Pick(r, []string{"f", "1_latin_x", "small font", "大"})
 		f = &fontModel{kind: "random", id: id, widths: randWidths(r, a)}
 		cfg := parser.FontConfig{DefaultFontID: "other", Fonts: map[string]parser.Fonts{
-			id:      {Widths: f.widths, MaxLineLength: 1 + r.IntN(300), NumLines: r.IntN(5), CursorOverlapWidth: r.IntN(20)},
+			id:      {Widths: copyWidths(f.widths), MaxLineLength: 1 + r.IntN(300), NumLines: r.IntN(5), CursorOverlapWidth: r.IntN(20)},
 			"other": {Widths: randWidths(r, a), MaxLineLength: 1 + r.IntN(300)},
 		}}
 		fc = &cfg
@@ -813,8 +815,14 @@ func directCase(k *h.Case, rf *realFonts) {
 		}
 	case x < 8 && rf.ok: // the repository's font_config.json
 		id := h.Pick(r, rf.ids)
-		f = &fontModel{kind: "real", id: id, widths: rf.fc.Fonts[id].Widths}
-		own := rf.fc // every case uses its own FontConfig value (the tables themselves are read-only)
+		f = &fontModel{kind: "real", id: id, widths: rf.widths[id]}
+		// every case hands the compiler its own FontConfig with its own copies of the tables; the oracle reads the
+		// tables the harness decoded from font_config.json itself
+		own := parser.FontConfig{DefaultFontID: rf.fc.DefaultFontID, Fonts: map[string]parser.Fonts{}}
+		for fid, fnt := range rf.fc.Fonts {
+			fnt.Widths = copyWidths(rf.widths[fid])
+			own.Fonts[fid] = fnt
+		}
 		fc = &own
 		a = alphabetOf(f.widths, r)
 	default: // built-in TEST font, with an empty or an unrelated config
@@ -921,8 +929,8 @@ func compiledCase(k *h.Case, rf *realFonts, workDir string) {
 	fontPath := ""
 	if useReal {
 		for _, id := range rf.ids {
-			ft := rf.fc.Fonts[id]
-			fonts = append(fonts, &fontModel{kind: "real", id: id, widths: ft.Widths, maxLen: ft.MaxLineLength, numLines: ft.NumLines, hasNumLines: ft.NumLines > 0, overlap: ft.CursorOverlapWidth})
+			mt := rf.meta[id]
+			fonts = append(fonts, &fontModel{kind: "real", id: id, widths: rf.widths[id], maxLen: mt[0], numLines: mt[1], hasNumLines: mt[1] > 0, overlap: mt[2]})
 		}
 		a = alphabetOf(fonts[r.IntN(len(fonts))].widths, r)
 		fontPath = filepath.Join(h.RepoDir, "font_config.json")
@@ -1145,6 +1153,9 @@ func compiledCase(k *h.Case, rf *realFonts, workDir string) {
 		// counted and starves the run if frequent.
 		k.Count("compiled_rejected", 1)
 		k.Sample("rejected", map[string]interface{}{"source": src, "error": res.Err.Error()})
+		// every generated call is well-formed (fonts exist, parameters are in their documented forms): rejecting
+		// it formats nothing
+		k.Violation("format-rejected", fmt.Sprintf("a well-formed format() call is rejected: %v\n source=%q", res.Err, src), details)
 		return
 	}
 	k.Count("font_kind_"+target.kind, 1)
@@ -1250,6 +1261,16 @@ func robustCase(k *h.Case) {
 
 // ---------------------------------------------------------------------------
 
+// copyWidths gives the compiler its own copy of a width table: the oracle must never read a map the code under
+// test could have written to.
+func copyWidths(m map[string]int) map[string]int {
+	out := make(map[string]int, len(m))
+	for k, v := range m {
+		out[k] = v
+	}
+	return out
+}
+
 // Run is the C07 check.
 func Run(ctx *h.Ctx) int {
 	selfCheck(ctx)
@@ -1264,6 +1285,32 @@ func Run(ctx *h.Ctx) int {
 			rf.ids = append(rf.ids, id)
 		}
 		sort.Strings(rf.ids)
+		// the oracle's width tables: decoded here with encoding/json, not taken from the code under test
+		var raw struct {
+			Fonts map[string]struct {
+				Widths             map[string]int `json:"widths"`
+				MaxLineLength      int            `json:"maxLineLength"`
+				NumLines           int            `json:"numLines"`
+				CursorOverlapWidth int            `json:"cursorOverlapWidth"`
+			} `json:"fonts"`
+		}
+		b, rerr := os.ReadFile(filepath.Join(h.RepoDir, "font_config.json"))
+		if rerr == nil {
+			rerr = json.Unmarshal(b, &raw)
+		}
+		if rerr != nil {
+			ctx.Inconclusive("cannot decode %s/font_config.json: %v", h.RepoDir, rerr)
+			rf.ok = false
+		}
+		rf.widths = map[string]map[string]int{}
+		rf.meta = map[string][3]int{}
+		for id := range fc.Fonts {
+			rf.widths[id] = raw.Fonts[id].Widths
+			if rf.widths[id] == nil {
+				rf.widths[id] = map[string]int{}
+			}
+			rf.meta[id] = [3]int{raw.Fonts[id].MaxLineLength, raw.Fonts[id].NumLines, raw.Fonts[id].CursorOverlapWidth}
+		}
 	}
 
 	workDir := filepath.Join(h.VerifDir, ".work", "c07")
